@@ -16,10 +16,10 @@ import json, os, re, concurrent.futures as cf
 from vlib import Infra, log, read_ndjson, write_ndjson
 
 PROFILE = {
-    "C12": dict(quick=["F1q", "F3", "F4", "F5", "F6q", "F7", "F8", "F9", "F10"], thorough=["F1", "F2", "F3", "F4", "F5", "F6", "F7", "F8", "F9", "F10"],
+    "C12": dict(quick=["F1q", "F3", "F4", "F5", "F6q", "F7", "F8", "F9", "F10", "F11", "F12"], thorough=["F1", "F2", "F3", "F4", "F5", "F6", "F7", "F8", "F9", "F10", "F11", "F12"],
                 rand=(160, 8000), mode="C12"),
-    "C14": dict(quick=["G1c", "G2b", "G2X", "G2S", "G2T", "G3", "G4", "G4X"],
-                thorough=["G1c", "G1l", "G1h", "G2a", "G2b", "G2c", "G2d", "G2e", "G2X", "G2S", "G2T", "G3", "G4", "G4X"],
+    "C14": dict(quick=["G1c", "G2b", "G2X", "G2S", "G2T", "G3", "G4", "G4X", "G5", "G6"],
+                thorough=["G1c", "G1l", "G1h", "G2a", "G2b", "G2c", "G2d", "G2e", "G2X", "G2S", "G2T", "G3", "G4", "G4X", "G5", "G6"],
                 rand=(160, 8000), mode="C14"),
     "C20": dict(quick=["H1q", "H2", "H3", "H4", "H5", "H6"], thorough=["H1", "H2", "H3", "H4", "H5", "H6"], rand=(160, 6000), mode="C20"),
 }
@@ -27,7 +27,7 @@ PROFILE = {
 CMPS = {
     "C12": {"model-vs-code", "alt-vs-original", "alt-vs-model"},
     "C14": {"model-vs-code", "alt-vs-original", "alt-vs-model"},
-    "C20": {"filter-vs-model"},
+    "C20": {"filter-vs-model", "concurrent-vs-sequential"},
 }
 
 
@@ -138,6 +138,11 @@ def run(ctx):
     chunks = 8
     nrand -= nrand % chunks
     ctx.build(["sc"])
+    racebuild = None
+    if prop == "C20":
+        # the harness once more under the race detector, for the shared-filter concurrency stage (built meanwhile)
+        rpool = cf.ThreadPoolExecutor(max_workers=1)
+        racebuild = rpool.submit(ctx.build, ["sc"], True)
 
     # 1. design-level checks of the spec on the generator's space (runs while the vectors are generated and replayed)
     pool = cf.ThreadPoolExecutor(max_workers=1)
@@ -167,6 +172,31 @@ def run(ctx):
         for res, tr in parts:
             outcomes += read_ndjson(res)
             tf.write(open(tr).read())
+    # 3b. C20: one filter VALUE per predicate/combinator shared by compilations of different module sets that run at
+    # the same time, under the race detector; results compared with the sequential ones and logged for the trace spec
+    conc_info = None
+    if racebuild:
+        racebuild.result()
+        cvecs = [v for v in vecs if re.search(r"vec_H[2-6]_", v)]
+        cres, ctrace = ctx.path("conc", "conc.ndjson"), ctx.path("conc", "trace.ndjson")
+        r = ctx.run_bin("sc-race", ["conc", "-out", cres, "-trace", ctrace] + cvecs, timeout=900, check=False)
+        m = re.search(r"CONC sets=(\d+) filters=(\d+) compilations=(\d+) events=(\d+)", r.stdout)
+        if not m or r.returncode not in (0, 66):
+            raise Infra(f"sc conc failed rc={r.returncode}:\n{(r.stdout + r.stderr)[-3000:]}")
+        conc_info = dict(module_sets=int(m.group(1)), shared_filter_values=int(m.group(2)), concurrent_compilations=int(m.group(3)),
+                         data_races=r.stderr.count("WARNING: DATA RACE"))
+        if conc_info["data_races"]:
+            i = r.stderr.find("WARNING: DATA RACE")
+            report = r.stderr[i:i + 2500]
+            where = re.search(r"/(compile|schema|parse)/([\w.]+\.go):\d+", report)
+            ctx.disagree(dict(site="conc", cmp="race-detector", attr="data-race", nodekind="", fam="conc", cls="", filter="",
+                              at=(where.group(1) + "/" + where.group(2)) if where else "?"),
+                         f"data race between compilations that share one filter value ({conc_info['data_races']} reports), first in "
+                         + ((where.group(1) + "/" + where.group(2)) if where else "?"),
+                         dict(kind="race", report=report, how=f"bin/check {prop} --tier {ctx.tier} (sc conc, binary built with -race)"))
+        outcomes += read_ndjson(cres)
+        with open(trace, "a") as tf:
+            tf.write(open(ctrace).read())
     per_fam = {}
     for o in outcomes:
         per_fam[o["fam"]] = per_fam.get(o["fam"], 0) + 1
@@ -192,7 +222,7 @@ def run(ctx):
         if o["verdict"] == "unjudged":
             unjudged += 1
         classes.add((o["fam"], o["verdict"], tuple(sorted(o["errs"])), o["altkind"]))
-        if o["verdict"] in ("ok", "err"):
+        if o["verdict"] in ("ok", "err") and o["fam"] != "conc":
             judged_keys.add(o["key"])
         elif o["verdict"] == "record":
             rand_keys[o["id"]] = o["key"]
@@ -230,6 +260,7 @@ def run(ctx):
         samples=samples, families=fams, family_sizes=sizes, sampled_module_sets=nrand, unjudged_vectors=unjudged,
         unjudged_trace_events=unj_trace, trace_events=events, trace_checks=checks,
         selftest=dict(perturbed_vector_reported=st_vec, perturbed_event_rejected=st_trace),
+        shared_filter_concurrency=conc_info,
         exhaustive=True,
         explanation="TLC checked the design invariants on every case of the families (states/transitions), generated one vector per case with "
                     "the prescribed verdict and schema; every vector was rendered to YANG, compiled by the real compiler and compared three ways; "
